@@ -221,17 +221,12 @@ func (m *multiStreamListener) Acquire() (StreamListener, error) {
 		m.ln = &TCPListener{ln}
 		m.acceptCh = make(chan acceptResponse)
 		m.doneCh = make(chan struct{})
-		acceptCh, doneCh := m.acceptCh, m.doneCh
+		// The goroutine works on this generation's listener and channels: the fields are
+		// replaced when the listener is acquired again after its last user closed it.
+		streamLn, acceptCh, doneCh := m.ln, m.acceptCh, m.doneCh
 		go func() {
 			for {
-				m.mu.Lock()
-				ln := m.ln
-				m.mu.Unlock()
-
-				if ln == nil {
-					return
-				}
-				conn, err := ln.AcceptStream()
+				conn, err := streamLn.AcceptStream()
 				if errors.Is(err, net.ErrClosed) {
 					close(acceptCh)
 					return
@@ -256,21 +251,30 @@ func (m *multiStreamListener) Acquire() (StreamListener, error) {
 		closeCh:  make(chan struct{}),
 		onCloseFunc: func() error {
 			m.mu.Lock()
-			defer m.mu.Unlock()
 			m.count--
-			if m.count == 0 {
+			last := m.count == 0
+			if last {
 				close(m.doneCh)
 				m.ln.Close()
 				m.ln = nil
-				if m.onCloseFunc != nil {
-					onCloseFunc := m.onCloseFunc
-					m.onCloseFunc = nil
-					return onCloseFunc()
-				}
+			}
+			onCloseFunc := m.onCloseFunc
+			m.mu.Unlock()
+			// Call back without holding m.mu: the callback takes the manager's lock, and the
+			// manager takes m.mu (in Acquire) while holding its own lock.
+			if last && onCloseFunc != nil {
+				return onCloseFunc()
 			}
 			return nil
 		},
 	}, nil
+}
+
+// unused reports whether no listener is currently acquired.
+func (m *multiStreamListener) unused() bool {
+	m.mu.Lock()
+	defer m.mu.Unlock()
+	return m.count == 0
 }
 
 type multiPacketListener struct {
@@ -303,20 +307,23 @@ func (m *multiPacketListener) Acquire() (net.PacketConn, error) {
 		m.pc = pc
 		m.readCh = make(chan readRequest)
 		m.doneCh = make(chan struct{})
+		// The goroutine works on this generation's socket and channels: the fields are
+		// replaced when the listener is acquired again after its last user closed it.
+		readCh, doneCh := m.readCh, m.doneCh
 		go func() {
 			buffer := make([]byte, serverUDPBufferSize)
 			for {
-				n, addr, err := m.pc.ReadFrom(buffer)
+				n, addr, err := pc.ReadFrom(buffer)
 				pkt := buffer[:n]
 				select {
-				case req := <-m.readCh:
+				case req := <-readCh:
 					n := copy(req.buffer, pkt)
 					req.respCh <- struct {
 						n    int
 						addr net.Addr
 						err  error
 					}{n, addr, err}
-				case <-m.doneCh:
+				case <-doneCh:
 					return
 				}
 			}
@@ -330,20 +337,29 @@ func (m *multiPacketListener) Acquire() (net.PacketConn, error) {
 		closeCh:    make(chan struct{}),
 		onCloseFunc: func() error {
 			m.mu.Lock()
-			defer m.mu.Unlock()
 			m.count--
-			if m.count == 0 {
+			last := m.count == 0
+			if last {
 				close(m.doneCh)
 				m.pc.Close()
-				if m.onCloseFunc != nil {
-					onCloseFunc := m.onCloseFunc
-					m.onCloseFunc = nil
-					return onCloseFunc()
-				}
+				m.pc = nil
+			}
+			onCloseFunc := m.onCloseFunc
+			m.mu.Unlock()
+			// Call back without holding m.mu (see multiStreamListener).
+			if last && onCloseFunc != nil {
+				return onCloseFunc()
 			}
 			return nil
 		},
 	}, nil
+}
+
+// unused reports whether no connection is currently acquired.
+func (m *multiPacketListener) unused() bool {
+	m.mu.Lock()
+	defer m.mu.Unlock()
+	return m.count == 0
 }
 
 // ListenerManager holds the state of shared listeners.
@@ -379,8 +395,11 @@ func (m *listenerManager) ListenStream(addr string) (StreamListener, error) {
 			addr,
 			func() error {
 				m.mu.Lock()
-				delete(m.streamListeners, addr)
-				m.mu.Unlock()
+				defer m.mu.Unlock()
+				// The listener may have been acquired again since its last user closed it.
+				if cur, ok := m.streamListeners[addr]; ok && cur == streamLn && streamLn.(*multiStreamListener).unused() {
+					delete(m.streamListeners, addr)
+				}
 				return nil
 			},
 		)
@@ -403,8 +422,11 @@ func (m *listenerManager) ListenPacket(addr string) (net.PacketConn, error) {
 			addr,
 			func() error {
 				m.mu.Lock()
-				delete(m.packetListeners, addr)
-				m.mu.Unlock()
+				defer m.mu.Unlock()
+				// The listener may have been acquired again since its last user closed it.
+				if cur, ok := m.packetListeners[addr]; ok && cur == packetLn && packetLn.(*multiPacketListener).unused() {
+					delete(m.packetListeners, addr)
+				}
 				return nil
 			},
 		)
